@@ -82,3 +82,10 @@ Definition ev_gradient (v : variant) (t : table) (xs : list K) (cs : list Z) : l
   map (fun lane => run_variant_multi v t cs (lane_bases vb lane)) (seq 0 (S (ndim_of t))).
 
 End Run.
+
+(* splinetable::ndsplineeval_gradient / evaluator_type::ndsplineeval_gradient refuse tables with ndim+1 > PHOTOSPLINE_MAXDIM
+   (bspline_multi.h: "if (ndim+1 > PHOTOSPLINE_MAXDIM) throw"); the accumulator holds
+   PHOTOSPLINE_NVECS * PHOTOSPLINE_VECTOR_SIZE = (MAXDIM / VECTOR_SIZE) * VECTOR_SIZE lanes. None = the exception. *)
+Definition gradient_lanes_available : nat := ((MAXDIM / VECTOR_SIZE) * VECTOR_SIZE)%nat.
+Definition gradient_checked {A : Arith} (t : @table A) (xs : list (T A)) (cs : list Z) : option (list (T A)) :=
+  if (MAXDIM <? S (ndim_of t))%nat then None else Some (ndsplineeval_gradient t xs cs).
